@@ -427,15 +427,9 @@ func multiRules(c *an.Ctx) {
 				if ps.X == ast.Expr(sel) {
 					nLoops++
 					c.FnsAnalysed[f.Name] = true
-					// first success returns
-					first := false
-					for _, st := range ps.Body.List {
-						if is, ok := st.(*ast.IfStmt); ok && len(is.Body.List) > 0 {
-							if _, ok := is.Body.List[len(is.Body.List)-1].(*ast.ReturnStmt); ok {
-								first = true
-							}
-						}
-					}
+					// first success wins: once a loader answered positively no further loader is consulted
+					// (typestate over the paths of the method; the shape of the loop body is free)
+					first := multiFirstWins(c, f)
 					// the element consulted is the range value
 					c.Check(first, "C19.multi", key+"/first-wins", ps.Pos(), "ranges front to back and returns at the first success", "the loop over the loaders does not return at the first success: a later loader can win")
 					// a failure of one loader must not end the search: every return inside the loop is a success return
@@ -515,4 +509,68 @@ func multiRules(c *an.Ctx) {
 		})
 		c.Check(ok, "C19.multi", "multi.NewLoader/order", nl.Pos(), "NewLoader stores its arguments in the given order", "NewLoader does not store its loaders argument unchanged")
 	}
+}
+
+// multiFirstWins: in f (a method looping over Multi.loaders), after Loader.Exists returned true or
+// Loader.Open returned a nil error, no further Loader call happens before the method returns.
+func multiFirstWins(c *an.Ctx, f *an.Fn) bool {
+	p := c.P
+	info := f.Info()
+	okVars, errVars := map[types.Object]bool{}, map[types.Object]bool{}
+	var lookups []*ast.CallExpr
+	an.InspectOwn(f, func(n ast.Node) bool {
+		if call, ok := n.(*ast.CallExpr); ok && an.IsCallTo(info, call, "(jet.Loader).Exists", "(jet.Loader).Open") {
+			lookups = append(lookups, call)
+		}
+		as, ok := n.(*ast.AssignStmt)
+		if !ok || len(as.Rhs) != 1 {
+			return true
+		}
+		call, ok := an.Unparen(as.Rhs[0]).(*ast.CallExpr)
+		if !ok {
+			return true
+		}
+		switch {
+		case an.IsCallTo(info, call, "(jet.Loader).Exists") && len(as.Lhs) == 1:
+			if id, ok := as.Lhs[0].(*ast.Ident); ok {
+				okVars[an.ObjOf(info, id)] = true
+			}
+		case an.IsCallTo(info, call, "(jet.Loader).Open") && len(as.Lhs) == 2:
+			if id, ok := as.Lhs[1].(*ast.Ident); ok {
+				errVars[an.ObjOf(info, id)] = true
+			}
+		}
+		return true
+	})
+	if len(lookups) == 0 {
+		return false
+	}
+	good, reached := true, false
+	x := p.NewExplorer(f, an.Hooks{
+		Branch: func(x *an.Explorer, cond ast.Expr, val bool, st *an.State) {
+			e := an.Unparen(cond)
+			if call, ok := e.(*ast.CallExpr); ok && an.IsCallTo(info, call, "(jet.Loader).Exists") && val {
+				st.Set("hit", "1")
+			}
+			if id, ok := e.(*ast.Ident); ok && okVars[an.ObjOf(info, id)] && val {
+				st.Set("hit", "1")
+			}
+			if b, ok := e.(*ast.BinaryExpr); ok && (b.Op == token.EQL || b.Op == token.NEQ) && an.Str(b.Y) == "nil" {
+				if id, ok := an.Unparen(b.X).(*ast.Ident); ok && errVars[an.ObjOf(info, id)] && val == (b.Op == token.EQL) {
+					st.Set("hit", "1")
+				}
+			}
+		},
+		Call: func(x *an.Explorer, call *ast.CallExpr, st *an.State) {
+			if an.IsCallTo(info, call, "(jet.Loader).Exists", "(jet.Loader).Open") {
+				reached = true
+				if st.Get("hit") != "" {
+					good = false
+				}
+			}
+		},
+	})
+	x.Run(nil)
+	c.States += x.Visited
+	return good && reached && x.Undecided == ""
 }
